@@ -411,6 +411,10 @@ impl WmoWriter {
 
         header.write(writer)?;
 
+        // Offset of each group's name in the MOGN chunk, which write_group_names
+        // emits as the names in group order, each followed by a NUL
+        let mut name_offset = 0u32;
+
         for group in groups {
             writer.write_u32_le(group.flags.bits())?;
 
@@ -422,9 +426,8 @@ impl WmoWriter {
             writer.write_f32_le(group.bounding_box.max.y)?;
             writer.write_f32_le(group.bounding_box.max.z)?;
 
-            // Write name offset in MOGN chunk
-            // This is a simplification - in a real implementation, you'd need to calculate actual offsets
-            writer.write_u32_le(0)?; // Placeholder
+            writer.write_u32_le(name_offset)?;
+            name_offset += group.name.len() as u32 + 1;
         }
 
         Ok(())
